@@ -185,9 +185,63 @@ class Registry:
                 return V(("tuple", tuple(("str",) for _ in node.elts)), tuple(vstr(e.value) for e in node.elts))
         if name in ("True", "False"):
             return vbool(name == "True")
+        if modctx is not None:
+            tbl = self._global_table(name, modctx)
+            if tbl is not None:
+                return tbl
         if modctx is not None and (name in modctx.classes or (name in modctx.imports and name[:1].isupper())):
             return V(("opaque", "Class"), z3.Const("class_" + name, sort_of(("opaque", "Class"))))
         return None
+
+    def _global_table(self, name, modctx):
+        """A module-level constant table  NAME[: ann] = defaultdict(str)  filled by ONE  NAME.update({(<bool consts>): 'text', ...})  at module level and only
+        read (NAME[...]) everywhere else in the module: a total dict (defaultdict: a missing key reads as the default '') from tuples of Booleans to strings.
+        Anything else (other writes, other key / value forms, another default factory) is not recognised (-> unknown name, the function is refused)."""
+        cache = modctx.__dict__.setdefault("_tables", {})
+        if name in cache:
+            return cache[name]
+        cache[name] = None
+        body = modctx.tree.body
+        defs = [n for n in body if isinstance(n, (ast.Assign, ast.AnnAssign)) and isinstance(getattr(n, "target", None) or n.targets[0], ast.Name)
+                and (getattr(n, "target", None) or n.targets[0]).id == name]
+        upds = [n for n in body if isinstance(n, ast.Expr) and isinstance(n.value, ast.Call) and isinstance(n.value.func, ast.Attribute)
+                and isinstance(n.value.func.value, ast.Name) and n.value.func.value.id == name]
+        if len(defs) != 1 or len(upds) != 1 or body.index(upds[0]) < body.index(defs[0]):
+            return None
+        v, u = defs[0].value, upds[0].value
+        if not (isinstance(v, ast.Call) and isinstance(v.func, ast.Name) and v.func.id == "defaultdict" and len(v.args) == 1 and not v.keywords
+                and isinstance(v.args[0], ast.Name) and v.args[0].id == "str" and modctx.imports.get("defaultdict") == ("collections", "defaultdict")):
+            return None
+        if not (u.func.attr == "update" and len(u.args) == 1 and not u.keywords and isinstance(u.args[0], ast.Dict)):
+            return None
+        # every other occurrence of NAME in the module must be a read  NAME[...]
+        parents = {id(ch): p_ for p_ in ast.walk(modctx.tree) for ch in ast.iter_child_nodes(p_)}
+        for n in ast.walk(modctx.tree):
+            if isinstance(n, ast.Name) and n.id == name:
+                par = parents.get(id(n))
+                if par is defs[0] or par is u.func:
+                    continue
+                if not (isinstance(par, ast.Subscript) and par.value is n and isinstance(par.ctx, ast.Load) and isinstance(n.ctx, ast.Load)):
+                    return None
+        entries, arity = [], None
+        for k_, v_ in zip(u.args[0].keys, u.args[0].values):
+            if not (isinstance(k_, ast.Tuple) and all(isinstance(e, ast.Constant) and isinstance(e.value, bool) for e in k_.elts)
+                    and isinstance(v_, ast.Constant) and isinstance(v_.value, str)):
+                return None
+            if arity not in (None, len(k_.elts)):
+                return None
+            arity = len(k_.elts)
+            entries.append((tuple(e.value for e in k_.elts), v_.value))
+        if not entries:
+            return None
+        from .vals import tuple_sort
+        kt = ("tuple", tuple(("bool",) for _ in range(arity)))
+        ks, mk, _ = tuple_sort(kt[1])
+        vals_ = z3.K(ks, z3.StringVal(""))
+        for key, text in entries:   # later entries of a dict literal win, as in CPython
+            vals_ = z3.Store(vals_, mk(*[z3.BoolVal(b) for b in key]), z3.StringVal(text))
+        cache[name] = V(("dict", kt, ("str",)), (z3.K(ks, TRUE), vals_))
+        return cache[name]
 
     # ------------------------------------------------------------------ totality (for short-circuit decisions)
     def call_is_total(self, node: ast.Call, eng):
@@ -244,6 +298,17 @@ class Registry:
             if n == "defaultdict":
                 return [(st, V(("dict", ("none",), ("none",)), None))]  # typed by the local's declaration (DDict)
             if n == "cast" and len(node.args) == 2:
+                if eng.c is not None and "cast_not_none" in getattr(eng.c, "opts", ()) and not eng.spec:
+                    # opt-in (contract option "cast_not_none"): cast(T, v) of an Optional v -- still the identity, but the contract takes on the OBLIGATION that v
+                    # is not None here and the value is used as a T afterwards (a possibly-None value fails the obligation, it is never assumed away)
+                    out = []
+                    for s_, v_ in eng.ev(node.args[1], st):
+                        if v_.t[0] == "opt":
+                            eng.oblige(s_, znot(v_.x[0]), "pre@call", f"cast: value is not None@{node.lineno}", node.lineno)
+                            s_.assume(znot(v_.x[0]))
+                            v_ = v_.x[1]
+                        out.append((s_, v_))
+                    return out
                 return eng.ev(node.args[1], st)  # typing.cast is the identity
             if n == "next" and len(node.args) == 1 and isinstance(node.args[0], ast.GeneratorExp):
                 return self.next_gen(eng, node, st)
@@ -892,6 +957,7 @@ class Registry:
                 raise ContractDrift(f"{c.key}: bad keyword {k}")
             bound[k] = a
         cs = State()
+        sub_self = None
         cs.pc = st.pc  # shared: assumptions land in the caller
         for n in pnames:
             if n not in bound and n.startswith("ghost_"):
@@ -916,6 +982,12 @@ class Registry:
                         and c.params[n][1] in self._all_bases(a_.t[1]) and all(f in a_.x for f in OBJ_LAYOUT[c.params[n][1]])
                         and n not in c.modifies):
                     # a subclass instance passed where the (non-mutating) contract speaks about the base class: its base-class fields
+                    a_ = V(c.params[n], {f: a_.x[f] for f in OBJ_LAYOUT[c.params[n][1]]})
+                elif (a_.t[0] == "obj" and c.params[n][0] == "obj" and a_.t != c.params[n] and c.params[n][1] in OBJ_LAYOUT
+                        and c.params[n][1] in self._all_bases(a_.t[1]) and all(f in a_.x for f in OBJ_LAYOUT[c.params[n][1]])
+                        and n in c.modifies and n == "self" and c.key.endswith(".__init__")):
+                    # super().__init__(...) of a subclass record: the base-class constructor contract acts on the base-class fields, the subclass's own fields are untouched
+                    sub_self = a_
                     a_ = V(c.params[n], {f: a_.x[f] for f in OBJ_LAYOUT[c.params[n][1]]})
                 if a_.t[0] == "opt" and c.params[n][0] not in ("opt", "closure") and c.params[n] != ("opaque", "Any"):
                     if not eng.spec:
@@ -1035,6 +1107,8 @@ class Registry:
                 if f"star_kwargs:{m}" in c.opts:
                     continue   # the callee's **kwargs dict is its own copy
                 idx = pnames.index(m)
+                if m == "self" and sub_self is not None:
+                    cs.vars[m] = V(sub_self.t, dict(sub_self.x, **cs.vars[m].x))
                 self.write_back(eng, st, node, idx, m, cs.vars[m], self_expr)
             out.append((st, res))
             return out
